@@ -178,6 +178,14 @@ def trace_tie(ctx: Ctx, drv: Driver, m: OptMonitor):
                 q = f"atoms.flipinit\t{s}\t{encn(r['arg'])}"
             elif me == "fix_flip":
                 q = f"atoms.fixflip\t{s}\t{hexs(r['arg'])}"
+                # the hypothesis of flip_clean: the bond atom is present and is a moved atom or its copy
+                init = next((x for x in m.records if x["cls"] == "Flip" and x["method"] == "__init__" and x["obj"] is r["obj"]), None)
+                mv = init["arg"] if init else []
+                b = r["arg"]
+                ok = b in r["before"] and (b in mv or (b.endswith("FLIP") and b[:-4] in mv))
+                ctx.count("fix_flip-guard", "holds" if ok else "fails")
+                if not ok:
+                    ctx.disagree("fix_flip called outside the guard of flipStep", {"before": r["before"], "moved": mv}, "bond atom present and in the moved set or a copy", b)
             elif me == "finalize":
                 q = f"atoms.flipfinalize\t{s}\t{b01(r['fixed'])}"
             elif me == "complete":
@@ -321,14 +329,18 @@ def oracle(ctx: Ctx, m: OptMonitor, text, opts, run):
                 exp_def = exp_def - {first}
         if got == exp_ref:
             ctx.count("final-atom-set", "= run-time reference")
-        elif exp_def is not None and got == exp_def:
+        elif exp_def is not None and got == exp_def and pos != "NC":
+            # (a one-residue chain is named after its N-terminal state only: its topology is the reference)
             ctx.count("final-atom-set", "= definition of the final state name")
         else:
             missing = sorted(exp_ref - got)
             extra = sorted(got - exp_ref)
             kind = "missing-atom" if missing else "extra-atom"
             atom = (missing or extra)[0]
-            out.append(({"kind": kind, "residue": res.name, "ffname": ff, "pos": pos, "atom": atom}, f"{res} ({ff}): missing {missing}, extra {extra} against its reference"))
+            sig = {"kind": kind, "residue": res.name, "ffname": ff, "pos": pos, "atom": atom}
+            if pos == "NC" and missing == ["OXT"] and not extra:
+                sig = {"kind": "missing-atom", "pos": "NC", "atom": "OXT", "cause": "repair-skipped"}
+            out.append((sig, f"{res} ({ff}): missing {missing}, extra {extra} against its reference"))
     # (b) input heavy atoms
     recs = altloc_first([l for l in text.splitlines() if l.startswith(("ATOM", "HETATM"))])
     reported = " ".join(m.warnings)
